@@ -58,12 +58,12 @@ def run(ctx):
 
     seen_b = {}
 
-    def scan(effs, fn_of):
+    def scan(effs, fn_of, in_loop=False):
         effs = list(effs)
         for i, e in enumerate(effs):
             if e[0] == 'loop':
                 for bd in e[3]:
-                    scan(bd['eff'], fn_of)
+                    scan(bd['eff'], fn_of, True)
             if e[0] != 'alloc':
                 continue
             n = e[2]
@@ -72,12 +72,16 @@ def run(ctx):
                 continue                                # a constant, or the length of something already in memory
             nxt = next((x for x in effs[i + 1:] if x[0] == 'loop'), None)
             key = "C17.backed|%s|%s" % (e[4], taint.describe(leaf, 40) if hasattr(taint, 'describe') else absint.term_str(leaf)[:40])
-            if nxt is None:
+            if nxt is None and in_loop:
+                ok, later = False, None
+                why = "reserved once per iteration of a loop and not filled within that iteration: the reservations of all iterations " \
+                      "pile up before any element is read"
+            elif nxt is None:
                 later = [x for x in effs[i + 1:] if x[0] == 'alloc' and peel(x[2])[0] not in ('int', 'len')]
                 ok = not later
                 why = "nothing else is reserved or read after it on this path (the call returns)" if ok else \
                     "another declared-count reservation follows before any element was read"
-            else:
+            if nxt is not None:
                 it = nxt[2].get('range') or nxt[2].get('iter')
                 if is_agg(it) and it[1].startswith('std::ops::Range'):
                     end = peel(agg_field(it, 'end'))
